@@ -101,6 +101,8 @@ TWINS = [('size - 100', lambda e: e['size'] - 100, '-size - 100', lambda e: -e['
 
 
 def groups(tier, seed):
+    # no entry at all because no place is searched (regexp roots that match nothing): the one row of an aggregate query is still there
+    yield {'kind': 'noplace', 'tree': 'three', 'where': 'none', 'arg': 'size', 'cases': []}
     for tname in ('three', 'mixed', 'two'):
         for wname in ('none', 'files'):
             yield {'kind': 'twins', 'tree': tname, 'where': wname, 'arg': 'size', 'cases': []}
@@ -135,6 +137,8 @@ def groups(tier, seed):
 
 
 def single(case):
+    if case.get('kind') == 'noplace':
+        return {'kind': 'noplace', 'tree': case['tree'], 'where': case['where'], 'arg': 'size', 'cases': [], 'only': case['query']}
     if case.get('kind') == 'twins':
         return {'kind': 'twins', 'tree': case['tree'], 'where': case['where'], 'arg': 'size', 'cases': [], 'only': case['query']}
     return {'tree': case['tree'], 'arg': case['arg'], 'where': case['where'],
@@ -211,6 +215,26 @@ def eval_group(env, group, tier):
         m_diff = len(o.rows())
         if o.rc != 0 or m_diff != len(ents):
             raise core.MachineryError('C07 model/differential row count disagree: %d vs %d %r' % (m_diff, len(ents), o.brief()))
+        if group.get('kind') == 'noplace':
+            for cols in (['count(*)'], ['count(*)', 'sum(size)'], ['sum(size)', 'min(size)', 'max(size)', 'avg(size)'], ['%s(%s)' % (f, '*' if f == 'count' else 'size') for f in FUNCS],
+                         ['count(*)', 'sum(length(name))'], ['max(size) - min(size)', 'count(*) * 10']):
+                ref = env.run([', '.join(cols) + ' from . where size gt 9000000000000000 into list'], cwd=root)
+                for frm in ("'zz.*' rx", "'q[0-9]+' regexp, 'zz.*' rx", "'zz.*' rx depth 2", "'zz.*' rx dfs", "'zz.*' rx archives symlinks"):
+                    for fmt in ('list', 'json', 'csv'):
+                        q = ', '.join(cols) + ' from ' + frm + ' into ' + fmt
+                        if group.get('only') is not None and group['only'] != q:
+                            continue
+                        reff = ref if fmt == 'list' else env.run([', '.join(cols) + ' from . where size gt 9000000000000000 into ' + fmt], cwd=root)
+                        o = env.run([q], cwd=root)
+                        res = {'case': {'kind': 'noplace', 'tree': group['tree'], 'where': wname, 'query': q}, 'nt': True, 'layer': 'no-place-searched'}
+                        if reff.rc != 0 or not reff.out:
+                            raise core.MachineryError('C07 reference of the empty aggregate failed %r' % reff.brief())
+                        if o.rc != 0 or o.err or o.out != reff.out:
+                            res.update(status='viol', cls='not-one-row-or-status', detail=dict(o.brief(), query=q, expected=reff.out.decode('utf-8', 'replace')[:200]), sig=('noplace',))
+                        else:
+                            res.update(status='ok', sig=(o.out,))
+                        outs.append(res)
+            return outs
         if group.get('kind') == 'twins':
             for a, fa, b_, fb in TWINS:
                 for first, second in (((a, fa), (b_, fb)), ((b_, fb), (a, fa))):
